@@ -698,3 +698,69 @@ def declare_copyright(e):
     def today_year(eng, s, base, node):
         return [(s, Val(INT, eng.uf("ghost_current_year", [], z3.IntSort())()))]
     e.py_attr_models[(Today, "year")] = today_year
+
+
+def declare_header(e):
+    """The writer's two abstract stages for the header functions: template.render(...) is ANY function of the template and
+    the three (sorted) sequences it is given; style.create_comment(text, force_multi) is any function of the style, the text
+    and the flag, and may fail with CommentCreateError."""
+    from reuse.exceptions import CommentCreateError
+    reg = e.reg
+    T, ST = reg.sort(TAbs("Template")), reg.sort(TAbs("Style"))
+    LS = reg.sort(TSeq(STR))
+
+    def template_const(eng, v, ty):
+        return Val(TAbs("Template"), eng.uf("ghost_default_template", [], T)())
+    e.coerce_hooks[("Template", "Template")] = template_const
+
+    def m_template(eng, s, recv, name, args, kw, node):
+        if name != "render" or args or set(kw) != {"copyright_lines", "contributor_lines", "spdx_expressions"}:
+            raise Unsupported(f"Template.{name} with these arguments")
+        f = eng.uf("ghost_rendered", [T, LS, LS, LS], z3.StringSort())
+        a = [eng.coerce(kw[k], TSeq(STR)).t for k in ("copyright_lines", "contributor_lines", "spdx_expressions")]
+        return [(s, Val(STR, f(recv.t, *a)))]
+    e.method_models[("Template", "*")] = m_template
+
+    def m_style(eng, s, recv, name, args, kw, node):
+        if name != "create_comment":
+            raise Unsupported(f"Style.{name}")
+        text = eng.coerce(args[0], STR)
+        force = kw.get("force_multi", args[1] if len(args) > 1 else eng.lift(False))
+        force = eng.coerce(force, BOOL)
+        fails = eng.uf("ghost_comment_fails", [ST, z3.StringSort(), z3.BoolSort()], z3.BoolSort())(recv.t, text.t, force.t)
+        ok, bad = eng.branch(s, z3.Not(fails), "create_comment")
+        if bad is not None:
+            eng.raise_(bad, CommentCreateError, where=node)
+        if ok is None:
+            return []
+        f = eng.uf("ghost_commented", [ST, z3.StringSort(), z3.BoolSort()], z3.StringSort())
+        return [(ok, Val(STR, f(recv.t, text.t, force.t)))]
+    e.method_models[("Style", "*")] = m_style
+
+
+def declare_header_sections(e):
+    """_TextSections (NamedTuple of three strings) and the comment finder of a style."""
+    import reuse.header as H
+    from reuse.exceptions import CommentParseError
+    reg = e.reg
+    reg.declare("data", "_TextSections", fields={"before": "str", "middle": "str", "after": "str"}, pyclass=H._TextSections)
+    ST = reg.sort(TAbs("Style"))
+    prev = e.method_models.get(("Style", "*"))
+
+    def m_style2(eng, s, recv, name, args, kw, node):
+        if name != "comment_at_first_character":
+            return prev(eng, s, recv, name, args, kw, node)
+        text = eng.coerce(args[0], STR)
+        fails = eng.uf("ghost_no_comment_at", [ST, z3.StringSort()], z3.BoolSort())(recv.t, text.t)
+        ok, bad = eng.branch(s, z3.Not(fails), "comment_at_first_character")
+        if bad is not None:
+            eng.raise_(bad, CommentParseError, where=node)
+        if ok is None:
+            return []
+        c = eng.uf("ghost_comment_at", [ST, z3.StringSort()], z3.StringSort())(recv.t, text.t)
+        # the block is an initial segment of the text that ends at a line end (assumption: '\n' is the only line boundary
+        # in the normalised text - str.splitlines also splits at form feeds and the like)
+        ok.assume(z3.PrefixOf(c, text.t))
+        ok.assume(z3.Or(z3.Length(c) == z3.Length(text.t), z3.SubString(text.t, z3.Length(c), 1) == z3.StringVal("\n")))
+        return [(ok, Val(STR, c))]
+    e.method_models[("Style", "*")] = m_style2
